@@ -23,3 +23,53 @@ func TestFamiliesInSubset(t *testing.T) {
 		t.Logf("counts %v ambiguous %d", n, amb)
 	}
 }
+
+func TestSeedsStayInSubset(t *testing.T) {
+	for _, seed := range []int64{1, 7, 13, 29} {
+		b := Quick()
+		b.Seed = seed
+		b.F4Len = 1
+		ref := Quick()
+		ref.F4Len = 1
+		var want []string
+		All(ref, func(c Item) bool {
+			e, _ := Expected(c.P)
+			want = append(want, Canonical(c.P).Text()+"|"+Canonical(&Program{Main: []*Stmt{EchoS(e...)}}).Text())
+			return true
+		})
+		i := 0
+		All(b, func(c Item) bool {
+			if _, err := Expected(c.P); err != nil {
+				t.Fatalf("seed %d %s: %v", seed, c.ID, err)
+			}
+			if got := Canonical(c.P).Text(); got+"|" != want[i][:len(got)+1] {
+				t.Fatalf("seed %d %s: shape changed\n%s\n%s", seed, c.ID, got, want[i])
+			}
+			i++
+			return true
+		})
+	}
+}
+
+func TestReduceToOneMinimal(t *testing.T) {
+	// property: "prints an A after a continue 2": the reducer must strip everything else
+	p := &Program{Main: []*Stmt{Assign("t", Int(1)),
+		Loop(LWhile, "c1", 2, EchoS("x"), Loop(LDoWhile, "c2", 2, EchoS("p"), If(Eq(Var("c2"), Int(1)), Continue(2)), EchoS("A")), EchoS("y")),
+		EchoS("\n")}}
+	keep := func(q *Program) bool {
+		if _, err := Expected(q); err != nil {
+			return false
+		}
+		has := false
+		for _, s := range Signature(q) {
+			if s == "..>for>continue2" || s == "..>dowhile>continue2" {
+				has = true
+			}
+		}
+		return has
+	}
+	r, n := Reduce(p, keep, 0)
+	if got := Canonical(r).Text(); got != `for ($a = 1; $a <= 1; $a++) { for ($b = 1; $b <= 1; $b++) { continue 2; } }` {
+		t.Fatalf("reduced to %q after %d tests", got, n)
+	}
+}
